@@ -453,7 +453,7 @@ Proof.
   - apply app_ok_point.
   - apply app_ok_enum.
   - apply app_ok_arr, IH. now rewrite Hw, Ht.
-  - apply andb_true_iff in Hw as [Hw _]. apply app_ok_nullable, IH. now rewrite Hw, Ht.
+  - apply app_ok_nullable, IH. now rewrite Hw, Ht.
   - apply app_ok_lc.
   - apply andb_true_iff in Hw as [Hwk Hwv]. apply andb_true_iff in Ht as [Htk Htv].
     apply app_ok_map; [apply IHk; now rewrite Hwk, Htk|apply IHv; now rewrite Hwv, Htv].
@@ -500,6 +500,12 @@ Proof.
     + intros i. cbn [row]. destruct (nth_error offs i); [|reflexivity]. f_equal. apply mapM_ext_in. intros; apply W.
     + cbn [good]. intros [Hm [Hr Hg]]. split; [exact Hm|]. split; [lia|now apply G].
     + cbn [prepare]. now rewrite I.
+  - (* Nullable *) intros d d' E. destruct d; try (cbn [prepare] in E; injection E as <-; repeat split; auto; fail).
+    cbn [prepare] in E. destruct (prepare t d) as [d1|] eqn:E1; [|discriminate]. injection E as <-.
+    destruct (IH d d1 E1) as [R [W [G I]]]. split; [reflexivity|]. split; [|split].
+    + intros i. cbn [row]. now rewrite W.
+    + cbn [good]. intros [Hl [Hn Hg]]. split; [lia|]. split; [exact Hn|now apply G].
+    + cbn [prepare]. now rewrite I.
   - (* LowCardinality *) intros d d' E. destruct d; try (cbn [prepare] in E; injection E as <-; repeat split; auto; fail).
     cbn [prepare] in E. destruct (of_rows t (dedup vals)) as [ix|] eqn:E1; [|discriminate].
     destruct (mapM (fun v => index_of v (dedup vals)) vals) as [ks|] eqn:E2; [|discriminate]. injection E as <-.
@@ -537,23 +543,6 @@ Fixpoint small (t : ty) (d : cdata) : Prop :=
   | _, _ => True
   end.
 
-Lemma no_prepare_id : forall t, no_prepare t = true -> forall d, good t d -> prepare t d = Some d.
-Proof.
-  induction t as [name w| | | | |sz| | |name w defs|t IH|t IH|t IH|k v IHk IHv|ts IH|name t IH] using ty_ind';
-    intros Hn d Hg; cbn [no_prepare] in Hn; try discriminate; try reflexivity.
-  - destruct d; cbn [good] in Hg; try contradiction. destruct Hg as [_ [_ Hg]]. cbn [prepare]. now rewrite (IH Hn d Hg).
-  - destruct d; cbn [good] in Hg; try contradiction. destruct Hg as [_ [_ [_ [Gk Gv]]]].
-    apply andb_true_iff in Hn as [Hk Hv]. cbn [prepare]. now rewrite (IHk Hk _ Gk), (IHv Hv _ Gv).
-  - destruct d; cbn [good] in Hg; try contradiction. cbn [prepare].
-    assert (H : map2o prepare ts ds = Some ds).
-    { remember (rows (TTuple ts) (DTuple ds)) as n eqn:En. clear En. revert ds Hg.
-      induction IH as [|t0 ts' H0 Hts IHts]; intros [|d0 ds] Hg; try contradiction; [reflexivity|].
-      cbn [forallb] in Hn. apply andb_true_iff in Hn as [Hn0 Hn']. destruct Hg as [[G0 _] Hg].
-      cbn [map2o]. now rewrite (H0 Hn0 d0 G0), (IHts Hn' ds Hg). }
-    now rewrite H.
-  - apply (IH Hn d Hg).
-Qed.
-
 Definition wfd_ok (t : ty) : Prop := forall d, good t d -> small t d -> prepare t d = Some d -> wfd t (rows t d) d.
 
 Theorem good_wfd : forall t, c16_ty t = true -> wfd_ok t.
@@ -579,8 +568,9 @@ Proof.
   - destruct Hg as [Hm [Hr Hg]]. destruct Hs as [Hl Hs]. split; [reflexivity|]. split; [exact Hm|]. split; [exact Hl|].
     rewrite <- Hr. apply IH; [now rewrite Hw, Ht|exact Hg|exact Hs|].
     cbn [prepare] in Hp. destruct (prepare t d); [|discriminate]. now injection Hp as ->.
-  - destruct Hg as [Hl [Hn Hg]]. apply andb_true_iff in Hw as [Hw Hnp]. split; [reflexivity|]. split; [exact Hn|].
-    rewrite Hl. apply IH; [now rewrite Hw, Ht|exact Hg|exact Hs|now apply no_prepare_id].
+  - destruct Hg as [Hl [Hn Hg]]. split; [reflexivity|]. split; [exact Hn|].
+    rewrite Hl. apply IH; [now rewrite Hw, Ht|exact Hg|exact Hs|].
+    cbn [prepare] in Hp. destruct (prepare t d); [|discriminate]. now injection Hp as ->.
   - split; [reflexivity|]. split; [exact Hg|exact Hp].
   - destruct Hg as [Hm [Hrk [Hrv [Gk Gv]]]]. destruct Hs as [Hl [Sk Sv]].
     apply andb_true_iff in Hw as [Hwk Hwv]. apply andb_true_iff in Ht as [Htk Htv].
@@ -670,7 +660,7 @@ Proof.
     + intros d i. destruct d; try reflexivity. cbn [row]. destruct (nth_error offs i); [|reflexivity]. f_equal.
       apply mapM_ext_in. intros; apply W.
     + intros d. destruct d; cbn [good]; try contradiction. intros [Hm [Hr Hg]]. rewrite R. repeat split; auto.
-  - apply andb_true_iff in Hw as [Hw _]. destruct (IH t' Hw Hs) as [R [W G]]. split; [reflexivity|]. split.
+  - destruct (IH t' Hw Hs) as [R [W G]]. split; [reflexivity|]. split.
     + intros d i. destruct d; try reflexivity. cbn [row]. now rewrite W.
     + intros d. destruct d; cbn [good]; try contradiction. intros [Hl [Hn Hg]]. rewrite R. repeat split; auto.
   - apply andb_true_iff in Hw as [Hw Hlc]. split; [reflexivity|]. split; [reflexivity|].
